@@ -141,6 +141,15 @@ Theorem bal_eq_reg_depth : forall ord ord' o ps n a v gs c,
 Proof. exact bal_eq_reg_depth_gen. Qed.
 Print Assumptions bal_eq_reg_depth.
 
+(* the same for the rows in the order report_subtotal hands them on (by account name) *)
+Theorem bal_eq_reg_depth_ordered_rows : forall ord ord' o ps n a v gs c,
+  (Z.of_nat (length a) <= n)%Z ->
+  total_of ord o ps a = Ok v ->
+  collapsed_rows ord' n o ps = Ok gs ->
+  den v c == sumq (fun g => mapq c (is_prefix a) g) gs.
+Proof. exact bal_eq_reg_depth_rows. Qed.
+Print Assumptions bal_eq_reg_depth_ordered_rows.
+
 Theorem collapsed_rows_depth_bounded : forall ord n o, (0 <= n)%Z -> forall sp m m',
   collapse_xact ord n o sp m = Ok m' ->
   (forall k, In k (map fst m) -> (Z.of_nat (length k) <= n)%Z) ->
